@@ -146,6 +146,9 @@ where
             }
         }
 
+        // `tip` is the height of the last block held: every update moves it one block forward and
+        // every disconnection one block back. The blocks just added end at `height`.
+        tx_index.tip = height;
         tx_index
     }
 
@@ -178,11 +181,11 @@ where
             .collect();
 
         self.tx_in_block.insert(block_header.block_hash(), ks);
+        self.tip += 1;
 
         if self.is_full() {
             // Avoid logging during bootstrap
             log::debug!("New block added to index: {}", block_header.block_hash());
-            self.tip += 1;
             self.remove_oldest_block();
         }
     }
@@ -194,6 +197,7 @@ where
 
             // Blocks should be disconnected from last backwards. Log if that's not the case so we can revisit this and fix it.
             if let Some(ref h) = self.blocks.pop_back() {
+                self.tip -= 1;
                 if h != block_hash {
                     log::error!("Disconnected block does not match the oldest block stored in the TxIndex ({block_hash} != {h})");
                 }
